@@ -354,6 +354,14 @@ def check_caches(run, modules, rule, functions=None, prog=None):
             nstores += check_inline_memos(run, rule, prog, eff, classes, describe=False)
             nstores += check_ctor_derived(run, rule, prog, eff, classes)
             nstores += check_shared_defaults(run, rule, prog, eff, classes)
+            from .rules._purity import swapped_arguments
+            for m_ in modules:
+                for call_, callee_, a_, p_ in swapped_arguments(prog, m_):
+                    nstores += 1
+                    run.subject(rule)
+                    run.fail(rule, '%s|swapped-argument:%s:%s' % (m_.name, callee_, a_), m_.relpath, call_.lineno,
+                             "%s(...) is called with '%s' in the position of its parameter '%s' while '%s' itself is not given that value: two "
+                             "arguments of the same kind are passed in the wrong order" % (callee_, a_, p_, a_))
         except RecursionError:
             run.undecided(rule, 'memo rules', 'class graph too deep')
     run.subject(rule)
